@@ -317,6 +317,62 @@ theorem tinv_step {v : Variant} {tasks : List Task} {ts ts' : TState} {i : Nat}
     rw [hg'] at hg; cases hg
     rw [hsame hd0]; exact hd0
 
+/-! ### why a task gives up -/
+
+/-- a task returned from `waitForTasks` with the error only because a task of its wait list has ended
+with an error -/
+def AbortedWhy (tasks : List Task) (ts : TState) : Prop :=
+  ∀ (i : Nat) (t : Task), tasks[i]? = some t → ts.stage[i]? = some .aborted →
+    ∃ j ∈ t.waits, finishedAt ts j = true ∧ failedAt tasks ts j = true
+
+theorem abortedWhy_init (tasks : List Task) : AbortedWhy tasks (init tasks) := by
+  intro i t ht hs
+  simp only [init, List.getElem?_map, ht, Option.map_some, Option.some.injEq] at hs
+  cases hs
+
+theorem abortedWhy_step {v : Variant} {tasks : List Task} {ts ts' : TState} {i : Nat}
+    (hinv : AbortedWhy tasks ts) (hst : step v tasks ts i = some ts') : AbortedWhy tasks ts' := by
+  have keep : ∀ (i' : Nat) (t' : Task), tasks[i']? = some t' → ts.stage[i']? = some .aborted →
+      ∃ j ∈ t'.waits, finishedAt ts' j = true ∧ failedAt tasks ts' j = true := by
+    intro i' t' ht' hs'
+    obtain ⟨j, hj, h1, h2⟩ := hinv i' t' ht' hs'
+    obtain ⟨h3, h4⟩ := finished_step hst h1
+    exact ⟨j, hj, h3, by rw [h4]; exact h2⟩
+  obtain ⟨t, ht, hk⟩ := step_cases hst
+  intro i' t' ht' hs'
+  cases hk with
+  | start k hs hw =>
+    by_cases e : i' = i
+    · subst e
+      simp only at hs'
+      rw [List.getElem?_set] at hs'
+      simp [lt_of_get hs] at hs'
+    · simp only at hs'
+      rw [List.getElem?_set] at hs'
+      simp [Ne.symm e] at hs'
+      exact keep i' t' ht' hs'
+  | await k p hs hw hfp =>
+    by_cases e : i' = i
+    · subst e
+      rw [ht] at ht'; cases ht'
+      simp only at hs'
+      rw [List.getElem?_set] at hs'
+      simp [lt_of_get hs] at hs'
+      by_cases hfail : failedAt tasks ts p = true
+      · obtain ⟨h3, h4⟩ := finished_step hst hfp
+        exact ⟨p, List.mem_of_getElem? hw, h3, by rw [h4]; exact hfail⟩
+      · simp [hfail] at hs'
+    · simp only at hs'
+      rw [List.getElem?_set] at hs'
+      simp [Ne.symm e] at hs'
+      exact keep i' t' ht' hs'
+  | lockstep l hs hl => exact keep i' t' ht' hs'
+
+theorem abortedWhy_reachable {v : Variant} {tasks : List Task} {ts : TState}
+    (hr : Reachable (tsys v tasks) ts) : AbortedWhy tasks ts :=
+  inv_of_init_step (tsys v tasks) (AbortedWhy tasks) (abortedWhy_init tasks)
+    (fun _ _ _ hi hst => abortedWhy_step hi hst) ts hr
+
 theorem tinv_reachable {v : Variant} {tasks : List Task} (hmaps : ∀ t ∈ tasks, NodupNames t.map)
     {ts : TState} (hr : Reachable (tsys v tasks) ts) : TInv v tasks ts :=
   inv_of_init_step (tsys v tasks) (TInv v tasks) (tinv_init hmaps) (fun _ _ _ hi hst => tinv_step hi hst) ts hr
